@@ -157,17 +157,23 @@ Section Oracles.
     end.
 
   (* the method APK.expandPackage: with a cache configured the result is memoised per
-     process (globalApkCache), errors included. Since fix 9459281 the key is
-     URL + "@" + ChecksumString(); before, it was the URL alone and a request
-     recording another checksum got the first expansion back (C05-F1). *)
-  Definition memo := list (string * eres).
-  Definition memo_key (h : handle) : string := (h_url h ++ "@" ++ h_chk h)%string.
+     process (globalApkCache), errors included. The key is the pair (URL,
+     checksum string) since fixes 9459281 / C05-c; originally it was the URL alone
+     (C05-F1: a request recording another checksum got the first expansion back),
+     then URL + "@" + checksum joined into one string (C05-F2: ambiguous when
+     either part contains '@'). *)
+  Definition memo := list ((string * string) * eres).
+  Definition memo_key (h : handle) : string * string := (h_url h, h_chk h).
+  Definition key_eqb (a b : string * string) : bool :=
+    String.eqb (fst a) (fst b) && String.eqb (snd a) (snd b).
+  Fixpoint assoc_k (x : string * string) (l : memo) : option eres :=
+    match l with [] => None | (k, v) :: l' => if key_eqb x k then Some v else assoc_k x l' end.
   Definition expand_package (m : memo) (k : option cache) (h : handle) (served : option apkfile)
     : eres * option cache * memo :=
     match k with
     | None => let (r, k') := expand_uncached None h served in (r, k', m)
     | Some _ =>
-        match assoc_s (memo_key h) m with
+        match assoc_k (memo_key h) m with
         | Some r => (r, k, m)
         | None => let (r, k') := expand_uncached k h served in (r, k', (memo_key h, r) :: m)
         end
